@@ -121,3 +121,138 @@ def c05_bic(rec, obs):
     if isinstance(e, ex.InvalidCountryCode):
         return s[4:6] in iso9362.alpha2_codes()
     return True
+
+
+def c02_check(rec, obs):
+    """from_bban: must return cc + reference digits + bban (digits in 02..98); pair: accepted iff pair == reference digits"""
+    cc = rec["cc"]
+    if rec["kindv"] == "from_bban":
+        bban = "".join(map(chr, rec["call"]["steps"][0][2][1]["cp"]))
+        want = cc + iso13616.check_digits_concrete(cc, bban) + bban
+        if obs["outcome"] != "return":
+            return True
+        return "".join(map(chr, obs["value"]["cp"])) != want
+    s = _text(rec)
+    want = s[2:4] == iso13616.check_digits_concrete(cc, s[4:])
+    return want != (obs["outcome"] == "return")
+
+
+def c03_both_accepted(rec, obs):
+    """reproduces iff original and mutated text are both accepted by the real library and differ by exactly one
+    same-kind substitution or adjacent same-kind transposition at a position >= 2"""
+    import schwifty
+
+    a = "".join(map(chr, rec["orig"]["cp"]))
+    b = _text(rec)
+    if obs["outcome"] != "return" or len(a) != len(b) or a == b:
+        return False
+    try:
+        schwifty.IBAN(a)
+    except Exception:  # noqa: BLE001
+        return False
+    diff = [i for i in range(len(a)) if a[i] != b[i]]
+    kind = lambda c: "d" if c.isdigit() else "l"  # noqa: E731
+    if len(diff) == 1:
+        i = diff[0]
+        return i >= 2 and kind(a[i]) == kind(b[i])
+    if len(diff) == 2 and diff[1] == diff[0] + 1:
+        i = diff[0]
+        return i >= 2 and a[i] == b[i + 1] and a[i + 1] == b[i] and kind(a[i]) == kind(a[i + 1])
+    return False
+
+
+def c11_iban(rec, obs):
+    import schwifty
+    from spec import table
+
+    s = iso13616.normalise_concrete(_text(rec))
+    try:
+        x = schwifty.IBAN(s)
+    except Exception:  # noqa: BLE001
+        return False
+    cc = s[:2]
+    pos = table.positions(cc)
+    bb = s[4:]
+    if x.country_code + x.checksum_digits + str(x.bban) != x.compact or x.compact != s or str(x) != s:
+        return True
+    if x.country_code != cc or x.checksum_digits != s[2:4] or str(x.bban) != bb or x.bban.country_code != cc:
+        return True
+    rs = []
+    for comp in table.COMPONENTS:
+        a, b = pos.get(comp, (0, 0))
+        want = bb[a:b] if (a, b) != (0, 0) else ""
+        if not (0 <= a <= b <= len(bb)):
+            return True
+        if getattr(x, comp) != want or getattr(x.bban, comp) != want:
+            return True
+        if (a, b) != (0, 0):
+            rs.append((a, b))
+    rs.sort()
+    if any(a2 < b1 for (a1, b1), (a2, b2) in zip(rs, rs[1:])):
+        return True
+    try:
+        return schwifty.IBAN.from_bban(x.country_code, x.bban) != x
+    except Exception:  # noqa: BLE001
+        return True
+
+
+def c11_bic(rec, obs):
+    import schwifty
+
+    s = iso13616.normalise_concrete(_text(rec))
+    try:
+        x = schwifty.BIC(s)
+    except Exception:  # noqa: BLE001
+        return False
+    parts = (s[0:4], s[4:6], s[6:8], s[8:11])
+    got = (x.bank_code, x.country_code, x.location_code, x.branch_code)
+    return got != parts or "".join(got) != x.compact or x.compact != s
+
+
+def _outcome(f):
+    try:
+        return ("ret", f())
+    except Exception as e:  # noqa: BLE001
+        return ("exc", type(e).__name__)
+
+
+def c10_variant(rec, obs):
+    """raw text vs its normalised form: same outcome; on success equal objects, equal str/compact, no space/lower"""
+    import schwifty
+
+    cls = getattr(schwifty, rec["cls"])
+    raw = _text(rec)
+    norm = iso13616.normalise_concrete(raw)
+    a, b = _outcome(lambda: cls(raw)), _outcome(lambda: cls(norm))
+    if a[0] != b[0]:
+        return True
+    if a[0] == "exc":
+        return a[1] != b[1]
+    x, y = a[1], b[1]
+    if not (x == y) or x != y or str(x) != str(y) or x.compact != norm or hash(x) != hash(y):
+        return True
+    return any(ch.isspace() or ("a" <= ch <= "z") for ch in x.compact)
+
+
+def c10_format(rec, obs):
+    import schwifty
+
+    cls = getattr(schwifty, rec["cls"])
+    s = iso13616.normalise_concrete(_text(rec))
+    try:
+        x = cls(s)
+    except Exception:  # noqa: BLE001
+        return False
+    if rec["cls"] == "IBAN":
+        want = " ".join(s[i : i + 4] for i in range(0, len(s), 4))
+    else:
+        want = " ".join(p for p in (s[0:4], s[4:6], s[6:8], s[8:11]) if p)
+    if x.formatted != want:
+        return True
+    for form in (x.formatted, str(x), x.compact):
+        try:
+            if cls(form) != x:
+                return True
+        except Exception:  # noqa: BLE001
+            return True
+    return False
